@@ -12,8 +12,12 @@ use std::path::Path;
 
 /// the same document with adversarial trivia: comments, CR LF, tabs, commas, non-ASCII
 fn decorate(text: &str, kind: usize) -> String {
-    match kind % 6 {
+    match kind % 9 {
         0 => text.to_string(),
+        // a UTF-8 byte order mark (editors on Windows write one; graphql_parser skips it as trivia)
+        6 => format!("\u{feff}{}", text),
+        7 => format!("\n\n  \n{}\n\n \t\n", text),
+        8 => format!("\u{feff}{}", text.replace('\n', "\r\n")),
         1 => text.replace('\n', "\r\n"),
         2 => format!("# h\u{e9}llo \u{1F600} \"quotes\" \\back\\slash\\ \u{2003}wide space\n{}\n# trailing comment without newline", text),
         3 => text.replace("{\n", "{\t\n").replace("  ", "\t"),
@@ -96,7 +100,7 @@ pub fn run(outdir: &Path, tier: &str, seed: u64, shards: usize, replay: Option<S
         }
         // byte-exactness of QUERY through the file route (what the derive and the CLI use)
         if i % 4 == 0 || tier == "thorough" {
-            for kind in 0..6 {
+            for kind in 0..9 {
                 let text = decorate(&p.doc.render(), kind);
                 let mut o = p.opts.clone();
                 o.cli_mode = true;
@@ -110,7 +114,7 @@ pub fn run(outdir: &Path, tier: &str, seed: u64, shards: usize, replay: Option<S
                     },
                     _ => (0, false),
                 };
-                let kind_name = ["plain", "CRLF", "comments+non-ASCII", "tabs", "CR only", "commas+CJK comment"][kind];
+                let kind_name = ["plain", "CRLF", "comments+non-ASCII", "tabs", "CR only", "commas+CJK comment", "byte order mark", "leading and trailing blank lines", "byte order mark + CRLF"][kind];
                 *dist.entry(format!("text/{}/{}", kind_name, if all_eq { "equal" } else { "DIFFERENT" })).or_default() += 1;
                 cases.push(Case {
                     coq: format!("(CText {} {}%N {})", coq::s(kind_name), nmods, coq::b(all_eq)),
@@ -150,7 +154,7 @@ pub fn run(outdir: &Path, tier: &str, seed: u64, shards: usize, replay: Option<S
         preludes: vec![],
     };
     cs.write(outdir, shards, json!({
-        "rule": "random documents with 1-3 operations and 0-3 fragments in random order x selected name {none, matching, non-matching, matching only after normalization, lower-cased} x mode {derive, CLI/library} x normalization; QUERY constants compared byte-for-byte with the query FILE for six trivia variants (plain, CR LF, CR only, tabs, comments with quotes / backslashes / non-ASCII / astral characters, commas + CJK); derive-mode error text; request body serialised in-process.",
+        "rule": "random documents with 1-3 operations and 0-3 fragments in random order x selected name {none, matching, non-matching, matching only after normalization, lower-cased} x mode {derive, CLI/library} x normalization; QUERY constants compared byte-for-byte with the query FILE for nine trivia variants (plain, CR LF, CR only, tabs, comments with quotes / backslashes / non-ASCII / astral characters, commas + CJK, a leading byte order mark, leading / trailing blank lines, byte order mark + CR LF); derive-mode error text; request body serialised in-process.",
         "distribution": dist, "samples": samples,
     }));
     runner::cleanup_scratch();
